@@ -75,6 +75,16 @@ CHECKS['C08'] = {
                   'Two pointer-range debug_asserts in TokenStream::next are outside the verifier memory model (assumed). Termination of get_type_layout/has_same_offsets recursion is not verified.',
 }
 
+CHECKS['C07'] = {
+    'engine': 'V',
+    'technique': 'Verus postcondition defining the output of a hash-iterating function as a function of the map views + uniqueness lemma',
+    'level_text': 'Unbounded deductive proof (Verus) for one of the five hash-iteration sites: Module::assign_api_bindings iterates a HashMap whose iteration order is left unspecified by the '
+                  'model (an arbitrary duplicate-free sequence of the view); its postcondition characterises inline_constant_buffers by the module alone, and a lemma shows that characterisation '
+                  'admits exactly one list - so the result is the same for every hash seed.',
+    'level_note': 'Partial: 1 of 5 sites. NameMap::build, usage_analysis, msl::analyse_globals and msl generate_pipeline are inside functions neither engine can ingest (HashMap<String,..>, iterator adapters) - not decided. '
+                  'Assumed: the consuming-iteration model of HashMap (each entry once, any order), slice sort = ascending rearrangement, derived Ord of InlineConstantBuffer = lexicographic.',
+}
+
 NOT_APPLICABLE = {
     'C01': 'not yet built in this session (planned partial claim: literal values and operator identity in the HLSL exporter); see DESIGN.md §3 C01',
     'C02': 'MSL meaning preservation: the Metal generator is three monoliths (4.5k+2.2k+1k lines) over HashMap-backed context; no formal MSL semantics or function-level contract within reach of Verus/Kani',
